@@ -278,7 +278,13 @@ theorem sum_map_range_ite (k i : Nat) (w : Int) (f : Nat → Int) :
 theorem sum_loads {ws : List Int} {ids : List Nat} {k : Nat} (hlen : ws.length = ids.length)
     (hr : InRange ids k) : (loads ws ids k).sum = ws.sum := by
   induction ws generalizing ids with
-  | nil => simp [loads, load_nil_left]
+  | nil =>
+    have : load [] ids = fun _ => 0 := funext (load_nil_left ids)
+    simp only [loads, this, List.sum_nil]
+    clear hr hlen this
+    induction k with
+    | zero => simp
+    | succ n ih => simp [List.range_succ, ih]
   | cons w ws ih =>
     cases ids with
     | nil => simp at hlen
@@ -287,8 +293,9 @@ theorem sum_loads {ws : List Int} {ids : List Nat} {k : Nat} (hlen : ws.length =
       have hi : i < k := hr i (by simp)
       have := ih (ids := ids) (by simpa using hlen) hr'
       simp only [loads] at this ⊢
-      simp only [load_cons]
-      rw [sum_map_range_ite k i w (load ws ids), this]
+      have hc : load (w :: ws) (i :: ids) = fun j => (if i = j then w else 0) + load ws ids j :=
+        funext (load_cons w ws i ids)
+      rw [hc, sum_map_range_ite k i w (load ws ids), this]
       simp [hi]
 
 theorem load_nonneg {ws : List Int} (hnn : ∀ w ∈ ws, 0 ≤ w) (ids : List Nat) (j : Nat) :
@@ -362,7 +369,694 @@ theorem sumsq_nonneg (l : List Int) : 0 ≤ sumsq l := by
   | nil => simp [sumsq]
   | cons y ys ih =>
     simp only [sumsq, List.map_cons, List.sum_cons] at ih ⊢
-    have := Int.mul_self_nonneg y  -- y * y ≥ 0
+    have := mul_self_nonneg y
     omega
 
+
+/-! ## Checked arithmetic on the load table -/
+
+theorem csub_of_le (cfg : Cfg) {a b : Int} (h : cfg.unsigned = true → b ≤ a) :
+    csub cfg a b = some (a - b) := by
+  unfold csub
+  by_cases hu : cfg.unsigned = true
+  · have := h hu
+    simp [hu]; omega
+  · simp [hu]
+
+theorem csub_eq_some {cfg : Cfg} {a b c : Int} (h : csub cfg a b = some c) : c = a - b := by
+  unfold csub at h
+  split at h
+  · simp at h
+  · simpa using h.symm
+
 end Coupe.Vn
+
+namespace Coupe.VnFirst
+open Coupe.Vn
+
+theorem addAt_eq {pl : List Int} {j : Nat} {x : Int} (d : Int) (h : pl[j]? = some x) :
+    addAt pl j d = some (pl.set j (x + d)) := by
+  simp [addAt, h]
+
+theorem subAt_eq (cfg : Cfg) {pl : List Int} {j : Nat} {x : Int} (d : Int) (h : pl[j]? = some x)
+    (hu : cfg.unsigned = true → d ≤ x) : subAt cfg pl j d = some (pl.set j (x - d)) := by
+  simp [subAt, h, csub_of_le cfg hu]
+
+/-- The table after the tentative move of `w` from `p` to `q`. -/
+def moved (pl : List Int) (p q : Nat) (lp lq w : Int) : List Int :=
+  (pl.set p (lp - w)).set q (lq + w)
+
+theorem moved_ne_nil {pl : List Int} {p q : Nat} {lp lq w : Int} (hq : pl[q]? = some lq) :
+    moved pl p q lp lq w ≠ [] := by
+  intro h
+  have hl : q < pl.length := by
+    rcases Nat.lt_or_ge q pl.length with h' | h'
+    · exact h'
+    · simp [List.getElem?_eq_none h'] at hq
+  have : (moved pl p q lp lq w).length = pl.length := by simp [moved]
+  rw [h] at this
+  simp at this; omega
+
+theorem tentative_eq (cfg : Cfg) {pl : List Int} {p q : Nat} {lp lq : Int} (w : Int) (hpq : p ≠ q)
+    (hp : pl[p]? = some lp) (hq : pl[q]? = some lq) (hu : cfg.unsigned = true → w ≤ lp) :
+    tentative cfg pl p q w
+      = some (moved pl p q lp lq w, gap (moved pl p q lp lq w), maxL (moved pl p q lp lq w)) := by
+  have h1 : (pl.set p (lp - w))[q]? = some lq := by
+    rw [List.getElem?_set]; simp [hpq, hq]
+  have hne := moved_ne_nil (p := p) (lp := lp) (w := w) hq
+  unfold tentative
+  rw [subAt_eq cfg w hp hu]
+  simp only [addAt_eq w h1]
+  rw [show (pl.set p (lp - w)).set q (lq + w) = moved pl p q lp lq w from rfl, minmax_eq hne]
+  simp only [csub_of_le cfg (fun _ => minL_le_maxL hne), gap]
+
+theorem rollback_eq (cfg : Cfg) {pl : List Int} {p q : Nat} {lp lq : Int} (w : Int) (hpq : p ≠ q)
+    (hp : pl[p]? = some lp) (hq : pl[q]? = some lq) (hu : cfg.unsigned = true → 0 ≤ lq) :
+    rollback cfg (moved pl p q lp lq w) p q w = some pl := by
+  have hpl : p < pl.length := by
+    rcases Nat.lt_or_ge p pl.length with h' | h'
+    · exact h'
+    · simp [List.getElem?_eq_none h'] at hp
+  have hql : q < pl.length := by
+    rcases Nat.lt_or_ge q pl.length with h' | h'
+    · exact h'
+    · simp [List.getElem?_eq_none h'] at hq
+  have h2 : (moved pl p q lp lq w)[p]? = some (lp - w) := by
+    simp only [moved, List.getElem?_set, List.length_set]
+    simp [Ne.symm hpq, hpl]
+  have h3 : ((moved pl p q lp lq w).set p (lp - w + w))[q]? = some (lq + w) := by
+    simp only [moved, List.getElem?_set, List.length_set]
+    simp [hpq, hql]
+  unfold rollback
+  rw [addAt_eq w h2]
+  simp only
+  rw [subAt_eq cfg w h3 (fun hh => by have := hu hh; omega)]
+  congr 1
+  apply List.ext_getElem?
+  intro j
+  simp only [moved, List.getElem?_set, List.length_set]
+  have hq' : pl[q] = lq := by simpa [List.getElem?_eq_getElem hql] using hq
+  have hp' : pl[p] = lp := by simpa [List.getElem?_eq_getElem hpl] using hp
+  by_cases hjq : q = j
+  · subst hjq; simp [hql, hq']
+  · by_cases hjp : p = j
+    · subst hjp; simp [hjq, hpl, hp']
+    · simp [hjq, hjp]
+
+/-- What the `for q` loop does when it stops at the first accepted target (the code as it is
+now): either nothing (the table is restored exactly), or exactly one move whose new gap is
+not larger than `imbalance`. -/
+theorem tryTargets_spec (cfg : Cfg) (hb : cfg.breakAfterMove = true) {p : Nat} {w lp : Int}
+    (qs : List Nat) (s : St) (hp : s.pl[p]? = some lp) (hqs : ∀ q ∈ qs, q < s.pl.length)
+    (hu : cfg.unsigned = true → w ≤ lp ∧ ∀ x ∈ s.pl, 0 ≤ x) :
+    tryTargets cfg p w qs s = some s ∨
+    ∃ q lq, q ∈ qs ∧ p ≠ q ∧ s.pl[q]? = some lq ∧ gap (moved s.pl p q lp lq w) ≤ s.imb ∧
+      tryTargets cfg p w qs s
+        = some { s with pl := moved s.pl p q lp lq w, imb := gap (moved s.pl p q lp lq w),
+                        mx := maxL (moved s.pl p q lp lq w), ids := s.ids.set s.i q,
+                        iLast := s.i } := by
+  induction qs with
+  | nil => left; rfl
+  | cons q qs ih =>
+    have ih' := ih (fun q' hq' => hqs q' (List.mem_cons_of_mem _ hq'))
+    unfold tryTargets
+    by_cases hpq : p = q
+    · subst hpq
+      simp only [beq_self_eq_true, if_true]
+      rcases ih' with h | ⟨q', lq, h1, h2, h3, h4, h5⟩
+      · left; exact h
+      · right; exact ⟨q', lq, List.mem_cons_of_mem _ h1, h2, h3, h4, h5⟩
+    · have hbeq : (p == q) = false := by simpa using hpq
+      simp only [hbeq, Bool.false_eq_true, if_false]
+      have hql : q < s.pl.length := hqs q (by simp)
+      have hq : s.pl[q]? = some s.pl[q] := List.getElem?_eq_getElem hql
+      rw [tentative_eq cfg w hpq hp hq (fun hh => (hu hh).1)]
+      simp only
+      by_cases hrej : s.imb < gap (moved s.pl p q lp s.pl[q] w)
+      · simp only [hrej, if_true]
+        rw [rollback_eq cfg w hpq hp hq (fun hh => (hu hh).2 _ (List.getElem_mem hql))]
+        simp only
+        rcases ih' with h | ⟨q', lq, h1, h2, h3, h4, h5⟩
+        · left; exact h
+        · right; exact ⟨q', lq, List.mem_cons_of_mem _ h1, h2, h3, h4, h5⟩
+      · simp only [hrej, if_false, hb, if_true]
+        right
+        exact ⟨q, s.pl[q], by simp, hpq, hq, by omega, rfl⟩
+
+/-! ## The loop invariant of `vn_first` -/
+
+/-- The bookkeeping of `vn_first` is exact: the load table is the table of true loads of the
+current array, `imbalance`/`max_load` are its gap and maximum; the array keeps its length and
+its ids stay below the part count. -/
+structure Inv (ws : List Int) (k : Nat) (s : St) : Prop where
+  len : s.ids.length = ws.length
+  rng : InRange s.ids k
+  pl : s.pl = loads ws s.ids k
+  imb : s.imb = gap s.pl
+  mx : s.mx = maxL s.pl
+
+theorem step_spec (cfg : Cfg) (hb : cfg.breakAfterMove = true) {ws : List Int} {k : Nat}
+    (hws : ws ≠ []) (hu : cfg.unsigned = true → ∀ w ∈ ws, 0 ≤ w) {s : St} (hinv : Inv ws k s) :
+    ∃ s', step cfg ws k s = some s' ∧ Inv ws k s' ∧ gap s'.pl ≤ gap s.pl ∧
+      s'.i = (s.i + 1) % ws.length ∧
+      ((s'.ids = s.ids ∧ s'.iLast = s.iLast) ∨
+        ∃ q, q < k ∧ s'.ids = s.ids.set s'.i q ∧ s'.iLast = s'.i) := by
+  have hlen : 0 < ws.length := List.length_pos_iff.2 hws
+  have hi : (s.i + 1) % ws.length < ws.length := Nat.mod_lt _ hlen
+  generalize hi' : (s.i + 1) % ws.length = i at hi
+  have hil : i < s.ids.length := by rw [hinv.len]; exact hi
+  obtain ⟨p, hidp⟩ : ∃ p, s.ids[i]? = some p := ⟨s.ids[i], List.getElem?_eq_getElem hil⟩
+  obtain ⟨w, hwp⟩ : ∃ w, ws[i]? = some w := ⟨ws[i], List.getElem?_eq_getElem hi⟩
+  have hpk : p < k := hinv.rng _ (List.mem_of_getElem? hidp)
+  have hlp : s.pl[p]? = some (load ws s.ids p) := by
+    rw [hinv.pl]; exact getElem?_loads hpk
+  unfold step
+  simp only [hi', hidp, hwp, hlp]
+  by_cases hc : load ws s.ids p < s.mx
+  · simp only [hc, if_true]
+    exact ⟨_, rfl, ⟨hinv.len, hinv.rng, hinv.pl, hinv.imb, hinv.mx⟩, Int.le_refl _, rfl,
+      Or.inl ⟨rfl, rfl⟩⟩
+  · simp only [hc, if_false]
+    have hspec := tryTargets_spec cfg hb (p := p) (w := w)
+      (List.range k) { s with i := i } hlp
+      (by intro q hq; simp only [hinv.pl, length_loads]; exact List.mem_range.1 hq)
+      (by
+        intro hh
+        refine ⟨le_load (hu hh) hidp hwp, ?_⟩
+        intro x hx
+        simp only [hinv.pl, loads, List.mem_map] at hx
+        obtain ⟨j, _, rfl⟩ := hx
+        exact load_nonneg (hu hh) _ _)
+    rcases hspec with h | ⟨q, lq, hq1, hq2, hq3, hq4, hq5⟩
+    · rw [h]
+      exact ⟨_, rfl, ⟨hinv.len, hinv.rng, hinv.pl, hinv.imb, hinv.mx⟩, Int.le_refl _, rfl,
+        Or.inl ⟨rfl, rfl⟩⟩
+    · rw [hq5]
+      have hqk : q < k := List.mem_range.1 hq1
+      have hlq : lq = load ws s.ids q := by
+        simp only [hinv.pl, getElem?_loads hqk, Option.some.injEq] at hq3
+        exact hq3.symm
+      have hpl2 : moved s.pl p q (load ws s.ids p) lq w
+          = loads ws (s.ids.set i q) k := by
+        rw [loads_set hidp hwp hq2 hpk hqk, hlq, hinv.pl]; rfl
+      refine ⟨_, rfl, ⟨?_, ?_, ?_, rfl, rfl⟩, ?_, rfl, Or.inr ⟨q, hqk, rfl, rfl⟩⟩
+      · simp [hinv.len]
+      · exact hinv.rng.set _ hqk
+      · exact hpl2
+      · have := hinv.imb
+        simp only at hq4 ⊢
+        omega
+
+/-- The invariant holds at every loop head (after any number of turns of the body), and no
+turn panics. -/
+theorem steps_spec (cfg : Cfg) (hb : cfg.breakAfterMove = true) {ws : List Int} {k : Nat}
+    (hws : ws ≠ []) (hu : cfg.unsigned = true → ∀ w ∈ ws, 0 ≤ w) (n : Nat) {s : St}
+    (hinv : Inv ws k s) :
+    ∃ s', steps cfg ws k n s = some s' ∧ Inv ws k s' ∧ gap s'.pl ≤ gap s.pl := by
+  induction n generalizing s with
+  | zero => exact ⟨s, rfl, hinv, Int.le_refl _⟩
+  | succ n ih =>
+    obtain ⟨s1, h1, hinv1, hg1, _⟩ := step_spec cfg hb hws hu hinv
+    obtain ⟨s2, h2, hinv2, hg2⟩ := ih hinv1
+    refine ⟨s2, ?_, hinv2, by omega⟩
+    simp only [steps, h1, h2]
+
+/-- Enough fuel is left at a loop head: the loop was either just left (`i = i_last`) or no move
+was accepted so far (`i_last = 0`) and the cursor has `len - i` (resp. `len` at the start)
+positions to go before it wraps to `0`. -/
+def FuelOk (len fuel : Nat) (s : St) : Prop :=
+  s.i = s.iLast ∨
+    (s.iLast = 0 ∧ 0 < s.i ∧ s.i ≤ len ∧ (s.i = len → len ≤ fuel) ∧ (s.i < len → len ≤ s.i + fuel))
+
+theorem scan_spec (cfg : Cfg) (hb : cfg.breakAfterMove = true) {ws : List Int} {k : Nat}
+    (hws : ws ≠ []) (hu : cfg.unsigned = true → ∀ w ∈ ws, 0 ≤ w) (fuel : Nat) {s : St}
+    (hinv : Inv ws k s) (hf : FuelOk ws.length fuel s) :
+    ∃ s', scan cfg ws k fuel s = some s' ∧ Inv ws k s' ∧ gap s'.pl ≤ gap s.pl ∧
+      (s'.ids = s.ids ∨ ∃ j q, q < k ∧ s'.ids = s.ids.set j q) := by
+  have hlen : 0 < ws.length := List.length_pos_iff.2 hws
+  induction fuel generalizing s with
+  | zero =>
+    have : s.i = s.iLast := by
+      rcases hf with h | ⟨h0, h1, h2, h3, h4⟩
+      · exact h
+      · exfalso
+        rcases Nat.lt_or_ge s.i ws.length with h | h
+        · have := h4 h; omega
+        · have := h3 (by omega); omega
+    refine ⟨s, ?_, hinv, Int.le_refl _, Or.inl rfl⟩
+    simp [scan, this]
+  | succ fuel ih =>
+    by_cases he : s.i = s.iLast
+    · refine ⟨s, ?_, hinv, Int.le_refl _, Or.inl rfl⟩
+      simp [scan, he]
+    · have hne : (s.i == s.iLast) = false := by simpa using he
+      obtain ⟨s1, h1, hinv1, hg1, hi1, hmv⟩ := step_spec cfg hb hws hu hinv
+      simp only [scan, hne, Bool.false_eq_true, if_false, h1]
+      rcases hf with h | ⟨h0, hpos, hle, h3, h4⟩
+      · exact absurd h he
+      rcases hmv with ⟨hids, hlast⟩ | ⟨q, hqk, hids, hlast⟩
+      · -- no move: the cursor advanced, fuel still suffices
+        have hf1 : FuelOk ws.length fuel s1 := by
+          rcases Nat.lt_or_ge s.i ws.length with hlt | hge
+          · have h4' := h4 hlt
+            by_cases hw : s.i + 1 = ws.length
+            · left; rw [hi1, hw, Nat.mod_self, hlast, h0]
+            · right
+              have : (s.i + 1) % ws.length = s.i + 1 := Nat.mod_eq_of_lt (by omega)
+              rw [hi1, this, hlast]
+              exact ⟨h0, by omega, by omega, by omega, by omega⟩
+          · have hil : s.i = ws.length := by omega
+            have h3' := h3 hil
+            by_cases hw : ws.length = 1
+            · left; rw [hi1, hil, hw, hlast, h0]
+            · right
+              have : (s.i + 1) % ws.length = 1 := by
+                rw [hil, Nat.add_mod_left]; exact Nat.mod_eq_of_lt (by omega)
+              rw [hi1, this, hlast]
+              exact ⟨h0, by omega, by omega, by omega, by omega⟩
+        obtain ⟨s2, h2, hinv2, hg2, hmv2⟩ := ih hinv1 hf1
+        refine ⟨s2, h2, hinv2, by omega, ?_⟩
+        rw [hids] at hmv2; exact hmv2
+      · -- a move was accepted: `i_last = i`, the loop test fails at once
+        have hf1 : FuelOk ws.length fuel s1 := Or.inl hlast.symm
+        obtain ⟨s2, h2, hinv2, hg2, _⟩ := ih hinv1 hf1
+        have hs2 : s2 = s1 := by
+          have : scan cfg ws k fuel s1 = some s1 := by
+            cases fuel <;> simp [scan, hlast.symm]
+          rw [this] at h2; exact (Option.some.inj h2).symm
+        subst hs2
+        exact ⟨s2, h2, hinv2, by omega, Or.inr ⟨_, q, hqk, hids⟩⟩
+
+theorem start_eq (cfg : Cfg) (ids : List Nat) (ws : List Int) :
+    start cfg ids ws = some ⟨ws.length, 0, ids, loads ws ids (partCount ids),
+      gap (loads ws ids (partCount ids)), maxL (loads ws ids (partCount ids)), 0⟩ := by
+  have hne : loads ws ids (partCount ids) ≠ [] := loads_ne_nil (by simp [partCount])
+  simp only [start, minmax_eq hne, csub_of_le cfg (fun _ => minL_le_maxL hne), gap]
+
+/-- Everything the property theorems need about a run on inputs of equal lengths. -/
+theorem run_spec (cfg : Cfg) (hb : cfg.breakAfterMove = true) (ids : List Nat) (ws : List Int)
+    (hlen : ws.length = ids.length) (hu : cfg.unsigned = true → ∀ w ∈ ws, 0 ≤ w) :
+    ∃ ids' c, run cfg ids ws = .ok ids' c ∧ ids'.length = ids.length ∧
+      InRange ids' (partCount ids) ∧
+      gap (loads ws ids' (partCount ids)) ≤ gap (loads ws ids (partCount ids)) ∧
+      (ids' = ids ∨ ∃ j q, q < partCount ids ∧ ids' = ids.set j q) := by
+  unfold run
+  simp only [show (ws.length ≠ ids.length) = False from by simp [hlen], if_false]
+  split
+  · exact ⟨ids, 0, rfl, rfl, inRange_partCount ids, Int.le_refl _, Or.inl rfl⟩
+  · next hne =>
+    split
+    · exact ⟨ids, 0, rfl, rfl, inRange_partCount ids, Int.le_refl _, Or.inl rfl⟩
+    · have hws : ws ≠ [] := by
+        intro h; subst h; simp at hne
+      rw [start_eq]
+      simp only
+      have hinv0 : Inv ws (partCount ids) ⟨ws.length, 0, ids, loads ws ids (partCount ids),
+          gap (loads ws ids (partCount ids)), maxL (loads ws ids (partCount ids)), 0⟩ :=
+        ⟨hlen.symm, inRange_partCount ids, rfl, rfl, rfl⟩
+      have hlpos : 0 < ws.length := List.length_pos_iff.2 hws
+      obtain ⟨s', h1, hinv', hg, hmv⟩ := scan_spec cfg hb hws hu ws.length hinv0
+        (Or.inr ⟨rfl, hlpos, Nat.le_refl _, fun _ => Nat.le_refl _, fun h => absurd h (Nat.lt_irrefl _)⟩)
+      rw [h1]
+      refine ⟨s'.ids, s'.cnt, rfl, ?_, hinv'.rng, ?_, hmv⟩
+      · rw [hinv'.len, hlen]
+      · rw [← hinv'.pl]; exact hg
+
+end Coupe.VnFirst
+
+/-! # VnBest -/
+
+namespace Coupe.Vn
+
+theorem wiLt_le {e x : WI} (h : wiLt e x = true) : e.1 ≤ x.1 := by
+  simp only [wiLt, Bool.or_eq_true, Bool.and_eq_true, decide_eq_true_eq, beq_iff_eq] at h
+  omega
+
+theorem wiLt_ge {e x : WI} (h : ¬ wiLt e x = true) : x.1 ≤ e.1 := by
+  simp only [wiLt, Bool.or_eq_true, Bool.and_eq_true, decide_eq_true_eq, beq_iff_eq] at h
+  omega
+
+theorem mem_insAsc {e y : WI} {l : List WI} : y ∈ insAsc e l ↔ y = e ∨ y ∈ l := by
+  induction l with
+  | nil => simp [insAsc]
+  | cons x xs ih =>
+    simp only [insAsc]
+    split
+    · simp only [List.mem_cons]
+    · simp only [List.mem_cons, ih]; grind
+
+theorem mem_sortAsc {y : WI} {l : List WI} : y ∈ sortAsc l ↔ y ∈ l := by
+  induction l with
+  | nil => simp [sortAsc]
+  | cons x xs ih => simp only [sortAsc, mem_insAsc, ih, List.mem_cons]
+
+/-- Weights ascending. -/
+def Sorted (l : List WI) : Prop := l.Pairwise (fun x y => x.1 ≤ y.1)
+
+theorem sorted_insAsc {e : WI} {l : List WI} (h : Sorted l) : Sorted (insAsc e l) := by
+  induction l with
+  | nil => simp [insAsc, Sorted]
+  | cons x xs ih =>
+    simp only [Sorted, List.pairwise_cons] at h
+    simp only [insAsc]
+    split
+    · next hlt =>
+      have hex := wiLt_le hlt
+      simp only [Sorted, List.pairwise_cons, List.mem_cons]
+      refine ⟨?_, h.1, h.2⟩
+      intro y hy
+      rcases hy with rfl | hy
+      · exact hex
+      · exact Int.le_trans hex (h.1 y hy)
+    · next hge =>
+      have hxe := wiLt_ge hge
+      simp only [Sorted, List.pairwise_cons]
+      refine ⟨?_, ih h.2⟩
+      intro y hy
+      rcases mem_insAsc.1 hy with rfl | hy
+      · exact hxe
+      · exact h.1 y hy
+
+theorem sorted_sortAsc (l : List WI) : Sorted (sortAsc l) := by
+  induction l with
+  | nil => simp [sortAsc, Sorted]
+  | cons x xs ih => exact sorted_insAsc ih
+
+theorem mem_takeWhile {α} {p : α → Bool} {l : List α} {x : α} (h : x ∈ l.takeWhile p) :
+    x ∈ l ∧ p x = true := by
+  induction l with
+  | nil => simp at h
+  | cons y ys ih =>
+    simp only [List.takeWhile_cons] at h
+    split at h
+    · next hy =>
+      rcases List.mem_cons.1 h with rfl | h
+      · exact ⟨by simp, hy⟩
+      · exact ⟨List.mem_cons_of_mem _ (ih h).1, (ih h).2⟩
+    · simp at h
+
+theorem mem_dropWhile {α} {p : α → Bool} {l : List α} {x : α} (h : x ∈ l.dropWhile p) : x ∈ l := by
+  rw [← List.takeWhile_append_dropWhile (p := p) (l := l)]
+  exact List.mem_append_right _ h
+
+/-- On a sorted `criterion` everything from the partition point on is `≥ target`. -/
+theorem sorted_dropWhile {l : List WI} {t2 : Int} (h : Sorted l) {x : WI}
+    (hx : x ∈ l.dropWhile (fun c => decide (2 * c.1 < t2))) : t2 ≤ 2 * x.1 := by
+  induction l with
+  | nil => simp at hx
+  | cons y ys ih =>
+    simp only [Sorted, List.pairwise_cons] at h
+    simp only [List.dropWhile_cons] at hx
+    split at hx
+    · exact ih h.2 hx
+    · next hy =>
+      simp only [decide_eq_true_eq] at hy
+      rcases List.mem_cons.1 hx with rfl | hx
+      · omega
+      · have := h.1 x hx; omega
+
+end Coupe.Vn
+
+namespace Coupe.VnBest
+open Coupe.Vn
+
+/-- Which element `choose` picks: always the head of one of the two zippers. -/
+theorem choose_some {cfg : Cfg} {t2 : Int} {above below : List WI} {c : WI} {isAbove : Bool}
+    (h : choose cfg t2 above below = some (some (c, isAbove))) :
+    (isAbove = true ∧ ∃ r, above = c :: r) ∨ (isAbove = false ∧ ∃ r, below = c :: r) := by
+  unfold choose at h
+  split at h
+  · simp at h
+  · simp only [Option.some.injEq, Prod.mk.injEq] at h
+    obtain ⟨rfl, rfl⟩ := h
+    exact Or.inr ⟨rfl, _, rfl⟩
+  · simp only [Option.some.injEq, Prod.mk.injEq] at h
+    obtain ⟨rfl, rfl⟩ := h
+    exact Or.inl ⟨rfl, _, rfl⟩
+  · split at h
+    · split at h
+      · simp only [Option.some.injEq, Prod.mk.injEq] at h
+        obtain ⟨rfl, rfl⟩ := h
+        exact Or.inl ⟨rfl, _, rfl⟩
+      · simp only [Option.some.injEq, Prod.mk.injEq] at h
+        obtain ⟨rfl, rfl⟩ := h
+        exact Or.inr ⟨rfl, _, rfl⟩
+    · simp at h
+
+theorem choose_ne_none {cfg : Cfg} {t2 : Int} {above below : List WI}
+    (ha : cfg.unsigned = true → ∀ a ∈ above, t2 ≤ 2 * a.1)
+    (hbl : cfg.unsigned = true → ∀ b ∈ below, 2 * b.1 ≤ t2) :
+    choose cfg t2 above below ≠ none := by
+  unfold choose
+  split
+  · simp
+  · simp
+  · simp
+  · next a _ b _ =>
+    rw [csub_of_le cfg (fun hh => ha hh a (by simp)), csub_of_le cfg (fun hh => hbl hh b (by simp))]
+    simp only
+    split <;> simp
+
+/-- `maybe_nearest` only ever returns an element of `criterion` that sits in the
+overweight part. -/
+theorem nearest_found {cfg : Cfg} {ids : List Nat} {o : Nat} {t2 : Int} (fuel : Nat)
+    {above below : List WI} {c : WI} (h : nearest cfg ids o t2 fuel above below = .found c) :
+    (c ∈ above ∨ c ∈ below) ∧ ids[c.2]? = some o := by
+  induction fuel generalizing above below with
+  | zero => simp [nearest] at h
+  | succ fuel ih =>
+    unfold nearest at h
+    split at h
+    · simp at h
+    · simp at h
+    · next c' isAbove hch =>
+      split at h
+      · simp at h
+      · next p hp =>
+        split at h
+        · next hpo =>
+          simp only [Near.found.injEq] at h
+          subst h
+          have hpo' : p = o := by simpa using hpo
+          refine ⟨?_, hpo' ▸ hp⟩
+          rcases choose_some hch with ⟨_, r, rfl⟩ | ⟨_, r, rfl⟩
+          · left; simp
+          · right; simp
+        · split at h
+          · obtain ⟨hm, hid⟩ := ih h
+            refine ⟨?_, hid⟩
+            rcases hm with hm | hm
+            · left; exact List.mem_of_mem_tail hm
+            · right; exact hm
+          · obtain ⟨hm, hid⟩ := ih h
+            refine ⟨?_, hid⟩
+            rcases hm with hm | hm
+            · left; exact hm
+            · right; exact List.mem_of_mem_tail hm
+
+theorem nearest_ne_abort {cfg : Cfg} {ids : List Nat} {o : Nat} {t2 : Int} (fuel : Nat)
+    {above below : List WI} (hf : above.length + below.length + 1 ≤ fuel)
+    (hia : ∀ c ∈ above, c.2 < ids.length) (hib : ∀ c ∈ below, c.2 < ids.length)
+    (ha : cfg.unsigned = true → ∀ a ∈ above, t2 ≤ 2 * a.1)
+    (hbl : cfg.unsigned = true → ∀ b ∈ below, 2 * b.1 ≤ t2) :
+    nearest cfg ids o t2 fuel above below ≠ .abort := by
+  induction fuel generalizing above below with
+  | zero => omega
+  | succ fuel ih =>
+    unfold nearest
+    split
+    · next hch => exact absurd hch (choose_ne_none ha hbl)
+    · simp
+    · next c isAbove hch =>
+      have hc : c.2 < ids.length := by
+        rcases choose_some hch with ⟨_, r, rfl⟩ | ⟨_, r, rfl⟩
+        · exact hia c (by simp)
+        · exact hib c (by simp)
+      rw [List.getElem?_eq_getElem hc]
+      simp only
+      split
+      · simp
+      · rcases choose_some hch with ⟨rfl, r, rfl⟩ | ⟨rfl, r, rfl⟩
+        · simp only [if_true, List.tail_cons]
+          apply ih
+          · simp only [List.length_cons] at hf; omega
+          · exact fun x hx => hia x (List.mem_cons_of_mem _ hx)
+          · exact hib
+          · exact fun hh x hx => ha hh x (List.mem_cons_of_mem _ hx)
+          · exact hbl
+        · simp only [Bool.false_eq_true, if_false, List.tail_cons]
+          apply ih
+          · simp only [List.length_cons] at hf; omega
+          · exact hia
+          · exact fun x hx => hib x (List.mem_cons_of_mem _ hx)
+          · exact ha
+          · exact fun hh x hx => hbl hh x (List.mem_cons_of_mem _ hx)
+
+end Coupe.VnBest
+
+namespace Coupe.VnBest
+open Coupe.Vn
+
+/-- A move of weight `0 < w < hi - lo` from a cell holding the maximum `hi` to a cell holding
+the minimum `lo` strictly lowers Σ load². -/
+theorem sumsq_move_lt {pl : List Int} {o u : Nat} {lo lu w : Int} (ho : pl[o]? = some lo)
+    (hu1 : (pl.set o (lo - w))[u]? = some lu) (hw : 0 < w) (hlt : w < lo - lu) :
+    sumsq ((pl.set o (lo - w)).set u (lu + w)) < sumsq pl := by
+  rw [sumsq_set _ hu1, sumsq_set _ ho]
+  have h1 : 0 < w * (lo - lu - w) := Int.mul_pos hw (by omega)
+  nlinarith [h1]
+
+/-- `vn_best_mono`'s outer loop: started with an exact load table, enough fuel for the
+measure Σ load² and all loads within `[m, M]`, it returns `Ok`, keeps the array's length and
+the id range, and all loads stay within `[m, M]`. -/
+theorem loop_spec (cfg : Cfg) {ws : List Int} {k : Nat} {crit : List WI} (m M : Int)
+    (hk : 0 < k) (hnn : ∀ w ∈ ws, 0 ≤ w)
+    (hcrit : ∀ c ∈ crit, ws[c.2]? = some c.1) (hsorted : Sorted crit)
+    (fuel : Nat) (ids : List Nat) (cnt : Nat)
+    (hlen : ids.length = ws.length) (hr : InRange ids k)
+    (hfuel : sumsq (loads ws ids k) < (fuel : Int))
+    (hbd : ∀ x ∈ loads ws ids k, m ≤ x ∧ x ≤ M) :
+    ∃ ids' c, loop cfg crit fuel ids (loads ws ids k) cnt = .ok ids' c ∧
+      ids'.length = ws.length ∧ InRange ids' k ∧ ∀ x ∈ loads ws ids' k, m ≤ x ∧ x ≤ M := by
+  induction fuel generalizing ids cnt with
+  | zero =>
+    have := sumsq_nonneg (loads ws ids k)
+    simp at hfuel; omega
+  | succ fuel ih =>
+    have hne : loads ws ids k ≠ [] := loads_ne_nil hk
+    -- the extreme parts
+    obtain ⟨⟨u, lu⟩, hmin⟩ : ∃ r, minFirst (loads ws ids k) = some r := by
+      cases h : minFirst (loads ws ids k) with
+      | none => exact absurd (minFirst_eq_none.1 h) hne
+      | some r => exact ⟨r, rfl⟩
+    obtain ⟨⟨o, lo⟩, hmax⟩ : ∃ r, maxLast (loads ws ids k) = some r := by
+      cases h : maxLast (loads ws ids k) with
+      | none => exact absurd (maxLast_eq_none.1 h) hne
+      | some r => exact ⟨r, rfl⟩
+    obtain ⟨hu1, hu2⟩ := minFirst_spec hmin
+    obtain ⟨ho1, ho2⟩ := maxLast_spec hmax
+    have hle : lu ≤ lo := by rw [hu2, ho2]; exact minL_le_maxL hne
+    have huk : u < k := by
+      rcases Nat.lt_or_ge u k with h | h
+      · exact h
+      · rw [getElem?_loads_none h] at hu1; simp at hu1
+    have hok : o < k := by
+      rcases Nat.lt_or_ge o k with h | h
+      · exact h
+      · rw [getElem?_loads_none h] at ho1; simp at ho1
+    have hlo : lo = load ws ids o := by
+      rw [getElem?_loads hok] at ho1; exact (Option.some.inj ho1).symm
+    have hlu : lu = load ws ids u := by
+      rw [getElem?_loads huk] at hu1; exact (Option.some.inj hu1).symm
+    have hlum : lu ∈ loads ws ids k := List.mem_of_getElem? hu1
+    have hlom : lo ∈ loads ws ids k := List.mem_of_getElem? ho1
+    unfold loop
+    simp only [hmin, hmax, csub_of_le cfg (fun _ => hle)]
+    -- the search
+    generalize ht2 : target2 cfg (lo - lu) = t2
+    have hmemA : ∀ c ∈ crit.dropWhile (fun c => decide (2 * c.1 < t2)), c ∈ crit :=
+      fun c hc => mem_dropWhile hc
+    have hmemB : ∀ c ∈ (crit.takeWhile (fun c => decide (2 * c.1 < t2))).reverse, c ∈ crit :=
+      fun c hc => (mem_takeWhile (List.mem_reverse.1 hc)).1
+    have hidx : ∀ c ∈ crit, c.2 < ids.length := by
+      intro c hc
+      have := hcrit c hc
+      rcases Nat.lt_or_ge c.2 ws.length with h | h
+      · omega
+      · simp [List.getElem?_eq_none h] at this
+    have hfl : (crit.dropWhile (fun c => decide (2 * c.1 < t2))).length
+        + ((crit.takeWhile (fun c => decide (2 * c.1 < t2))).reverse).length + 1
+        ≤ crit.length + 1 := by
+      have := congrArg List.length
+        (List.takeWhile_append_dropWhile (p := fun c : WI => decide (2 * c.1 < t2)) (l := crit))
+      simp only [List.length_append] at this
+      simp only [List.length_reverse]; omega
+    have hnab := nearest_ne_abort (cfg := cfg) (ids := ids) (o := o) (t2 := t2) (crit.length + 1) hfl
+      (fun c hc => hidx c (hmemA c hc)) (fun c hc => hidx c (hmemB c hc))
+      (fun _ a ha => sorted_dropWhile hsorted ha)
+      (fun _ b hb => by
+        have := (mem_takeWhile (List.mem_reverse.1 hb)).2
+        simp only [decide_eq_true_eq] at this; omega)
+    split
+    · next hab => exact absurd hab hnab
+    · exact ⟨ids, cnt, rfl, hlen, hr, hbd⟩
+    · next w id hfound =>
+      obtain ⟨hmem, hido⟩ := nearest_found _ hfound
+      have hc : (w, id) ∈ crit := by
+        rcases hmem with h | h
+        · exact hmemA _ h
+        · exact hmemB _ h
+      have hwid : ws[id]? = some w := hcrit _ hc
+      have hw0 : 0 ≤ w := hnn w (List.mem_of_getElem? hwid)
+      split
+      · exact ⟨ids, cnt, rfl, hlen, hr, hbd⟩
+      · next hcond =>
+        simp only [Bool.or_eq_true, decide_eq_true_eq, beq_iff_eq, not_or] at hcond
+        obtain ⟨hc1, hc2⟩ := hcond
+        have hwpos : 0 < w := by omega
+        have hwlt : w < lo - lu := by omega
+        have hidl : id < ids.length := hidx _ hc
+        have hwle : w ≤ lo := by rw [hlo]; exact le_load hnn hido hwid
+        have huo : o ≠ u := by
+          intro h; subst h
+          rw [ho1] at hu1
+          have := Option.some.inj hu1
+          omega
+        have hu1' : ((loads ws ids k).set o (lo - w))[u]? = some lu := by
+          rw [List.getElem?_set]; simp [huo, hu1]
+        simp only [hidl, if_true, csub_of_le cfg (fun _ => hwle), hu1']
+        have hpl' : ((loads ws ids k).set o (lo - w)).set u (lu + w) = loads ws (ids.set id u) k := by
+          rw [loads_set hido hwid huo hok huk, hlo, hlu]
+        rw [hpl']
+        have hlt := sumsq_move_lt ho1 hu1' hwpos hwlt
+        rw [hpl'] at hlt
+        apply ih
+        · simp [hlen]
+        · exact hr.set _ huk
+        · push_cast at hfuel ⊢; omega
+        · intro x hx
+          rw [← hpl'] at hx
+          have hb1 := hbd _ hlum
+          have hb2 := hbd _ hlom
+          rcases List.mem_or_eq_of_mem_set hx with hx | rfl
+          · rcases List.mem_or_eq_of_mem_set hx with hx | rfl
+            · exact hbd _ hx
+            · omega
+          · omega
+
+/-- No weight is negative once the `any(< 0)` test has failed. -/
+theorem nonneg_of_not_any {ws : List Int} (h : ¬ ws.any (fun w => decide (w < 0)) = true) :
+    ∀ w ∈ ws, 0 ≤ w := by
+  intro w hw
+  simp only [List.any_eq_true, decide_eq_true_eq, not_exists, not_and] at h
+  have := h w hw; omega
+
+/-- Everything the property theorems need about a run of VnBest. -/
+theorem run_spec (cfg : Cfg) (ids : List Nat) (ws : List Int) (hlen : ws.length = ids.length)
+    (hnn : ∀ w ∈ ws, 0 ≤ w) :
+    ∃ ids' c, run cfg ids ws = .ok ids' c ∧ ids'.length = ids.length ∧
+      InRange ids' (partCount ids) ∧
+      gap (loads ws ids' (partCount ids)) ≤ gap (loads ws ids (partCount ids)) := by
+  have hk : 0 < partCount ids := by simp [partCount]
+  have hany : ¬ ws.any (fun w => decide (w < 0)) = true := by
+    simp only [List.any_eq_true, decide_eq_true_eq, not_exists, not_and]
+    intro w hw; have := hnn w hw; omega
+  unfold run
+  simp only [show (ws.length ≠ ids.length) = False from by simp [hlen], if_false]
+  rw [if_neg hany]
+  split
+  · exact ⟨ids, 0, rfl, rfl, inRange_partCount ids, Int.le_refl _⟩
+  · have hcrit : ∀ c ∈ sortAsc ws.zipIdx, ws[c.2]? = some c.1 := by
+      intro c hc
+      exact List.mem_zipIdx_iff_getElem?.1 (mem_sortAsc.1 hc)
+    have hfuel : sumsq (loads ws ids (partCount ids))
+        < (((sumsq (loads ws ids (partCount ids))).toNat + 1 : Nat) : Int) := by
+      have := sumsq_nonneg (loads ws ids (partCount ids))
+      push_cast
+      rw [Int.toNat_of_nonneg this]; omega
+    obtain ⟨ids', c, h1, h2, h3, h4⟩ := loop_spec cfg (minL (loads ws ids (partCount ids)))
+      (maxL (loads ws ids (partCount ids))) hk hnn hcrit (sorted_sortAsc _) _ ids 0 hlen.symm
+      (inRange_partCount ids) hfuel (fun x hx => ⟨minL_le hx, le_maxL hx⟩)
+    exact ⟨ids', c, h1, by omega, h3, gap_le_of_bounds (loads_ne_nil hk) h4⟩
+
+end Coupe.VnBest
